@@ -61,6 +61,13 @@ class SqlWorld:
                 self.sched.block_on(WRITE_LOCK)
             self.holder = t
 
+    def proc_died(self, idx: int) -> None:
+        """Called by the driver once the Crashed exception has unwound the victim's call: its
+        session is closed, the DBAPI connection released/invalidated - SQLite has dropped its lock."""
+        if self.holder is not None and self.holder.idx == idx:
+            self.holder = None
+            self.sched.wake(WRITE_LOCK)
+
     def end_transaction(self, kind: str, real: Any) -> None:
         t = self._me()
         if t is None or t.idx in self.crashed:
